@@ -254,7 +254,18 @@ impl DB {
         let db_path = options.db_path();
         let file_name_handler = Arc::new(FileNameHandler::new(db_path.to_string()));
 
-        DB::create_database_directories(&fs, &*file_name_handler, db_path)?;
+        // Only the root directory is needed to ask for the lock. Nothing else under the database
+        // path may be touched before this instance owns it: an attempt that is refused must leave
+        // no trace e.g. in a directory that is being destroyed.
+        DB::create_root_directory(&fs, &*file_name_handler, db_path)?;
+
+        log::info!("Attempting to acquire database lock.");
+        let lock_file_path = file_name_handler.get_lock_file_path();
+        let db_lock = Some(Arc::new(
+            options.filesystem_provider().lock_file(&lock_file_path)?,
+        ));
+
+        DB::create_supporting_directories(&fs, &*file_name_handler)?;
 
         // Create WAL
         let wal_file_number = 0;
@@ -298,12 +309,6 @@ impl DB {
             background_work_finished_signal: Arc::clone(&background_work_finished_signal),
         };
         let compaction_worker = Arc::new(CompactionWorker::new(portable_state)?);
-
-        log::info!("Attempting to acquire database lock.");
-        let lock_file_path = file_name_handler.get_lock_file_path();
-        let db_lock = Some(Arc::new(
-            options.filesystem_provider().lock_file(&lock_file_path)?,
-        ));
 
         let db = DB {
             options,
@@ -1678,8 +1683,8 @@ impl DB {
         Ok(())
     }
 
-    /// Create the directory structure that the database depends on.
-    fn create_database_directories(
+    /// Create the root directory of the database. It is all that is needed to ask for the lock.
+    fn create_root_directory(
         fs: &Arc<dyn FileSystem>,
         file_name_handler: &FileNameHandler,
         db_path: &str,
@@ -1696,6 +1701,14 @@ impl DB {
             }
         }
 
+        Ok(())
+    }
+
+    /// Create the directories for write-ahead logs and table files. The database lock must be held.
+    fn create_supporting_directories(
+        fs: &Arc<dyn FileSystem>,
+        file_name_handler: &FileNameHandler,
+    ) -> RainDBResult<()> {
         log::info!("Creating supporting database paths.");
         if let Err(dir_creation_err) = fs.create_dir(&file_name_handler.get_wal_dir()) {
             if dir_creation_err.kind() == io::ErrorKind::AlreadyExists {
